@@ -107,6 +107,7 @@ def entries():
     add("AffineCoupling/ctx", "transform", lambda: TR.AffineCouplingTransform(mask4, resnet(3)), _rn(4), _rn(3), flags={"inv"})
     add("AffineCoupling/general-act", "transform", lambda: TR.AffineCouplingTransform(mask4, resnet(), scale_activation=TR.AffineCouplingTransform.GENERAL_SCALE_ACTIVATION), _rn(4), flags={"inv"})
     add("AdditiveCoupling", "transform", lambda: TR.AdditiveCouplingTransform(mask4, resnet()), _rn(4), flags={"inv"})
+    add("AffineCoupling/resnet-batchnorm", "transform", lambda: TR.AffineCouplingTransform(mask4, resnet(bn=True)), _rn(4), flags={"inv", "inner_bn"})
     add("AffineCoupling/image", "transform", lambda: TR.AffineCouplingTransform([1, 0, 1], convnet()), _rn(3, 2, 3), flags={"inv", "image"})
     for nm, cls in [("Linear", TR.PiecewiseLinearCouplingTransform), ("Quadratic", TR.PiecewiseQuadraticCouplingTransform), ("Cubic", TR.PiecewiseCubicCouplingTransform), ("RQ", TR.PiecewiseRationalQuadraticCouplingTransform)]:
         add("Piecewise%sCoupling" % nm, "transform", (lambda cls=cls: cls(mask4, resnet(), num_bins=4)), _ru(4), flags={"inv", "bounded01", "spline"})
@@ -167,6 +168,21 @@ def entries():
         return m
 
     add("Multiscale", "transform", multiscale, _rn(8, 2, 2), flags={"inv", "image", "ctor_random", "flat_out", "needs_init"}, y=_rn(32))
+
+    def multiscale_dim(split_dim, shape, stages):
+        def make():
+            m = TR.MultiscaleCompositeTransform(stages, split_dim=split_dim)
+            s = shape
+            for k in range(stages):
+                t = TR.AffineCouplingTransform([1, 0], convnet()) if k == 1 else TR.PointwiseAffineTransform(shift=0.3 * (k + 1), scale=1.7 - 0.4 * k)
+                s = m.add_transform(t, s)
+            return m
+
+        return make
+
+    # split along the height / width (odd and even sizes): the inverse must re-join along that dimension
+    add("Multiscale/split-dim-2", "transform", multiscale_dim(2, (2, 5, 2), 2), _rn(2, 5, 2), flags={"inv", "image", "flat_out"}, y=_rn(20))
+    add("Multiscale/split-dim-3", "transform", multiscale_dim(3, (2, 2, 9), 3), _rn(2, 2, 9), flags={"inv", "image", "flat_out"}, y=_rn(36))
     add("CompositeCDF", "transform", lambda: NL.CompositeCDFTransform(NL.Sigmoid(), NL.PiecewiseRationalQuadraticCDF([3], num_bins=4)), _rn(3), flags={"inv"})
     # ---- normalisation (ActNorm initialised by one training pass in `prepare`)
     add("ActNorm", "transform", lambda: TR.ActNorm(3), _rn(3), flags={"inv", "needs_init"})
@@ -214,6 +230,7 @@ def entries():
     add("Flow(affine|CondNormal identity-encoder)", "flow", lambda: FL.base.Flow(TR.PointwiseAffineTransform(shift=0.5, scale=2.0), D.ConditionalDiagonalNormal([3])), _rn(3), (lambda n, g: 0.5 * torch.randn(n, 6, generator=g)), flags={"sample", "needs_ctx", "noparams"})
     add("MaskedAutoregressiveFlow", "flow", lambda: FL.MaskedAutoregressiveFlow(3, 8, num_layers=2, num_blocks_per_layer=1, use_random_permutations=True, use_random_masks=True, use_residual_blocks=False, batch_norm_between_layers=True), _rn(3), flags={"sample", "ctor_random", "needs_init", "batch_coupled_train"})
     add("SimpleRealNVP", "flow", lambda: FL.SimpleRealNVP(4, 8, num_layers=2, num_blocks_per_layer=1), _rn(4), flags={"sample"})
+    add("SimpleRealNVP/batchnorm-within", "flow", lambda: FL.SimpleRealNVP(4, 8, num_layers=2, num_blocks_per_layer=1, batch_norm_within_layers=True), _rn(4), flags={"sample", "inner_bn", "needs_init", "batch_coupled_train"})
     return E
 
 
